@@ -142,6 +142,22 @@ func checkC06(w *SketchWorld, slot int) (fails []mc.Fail) {
 			}
 		}
 	}
+	// a receiver that held this very content, was cleared and is reused as the
+	// target of decoding (the pattern the decoder's documentation recommends)
+	encSelf := encodeOf(q, false)
+	for _, t := range codecTargets {
+		rc := rebuild(md, t, sl.Exact)
+		rc.Q().Clear()
+		if err := rc.Q().DecodeAndMergeWith(encSelf); err != nil {
+			fail("C06.round-trip", "decoding into a cleared %s receiver that held the same content failed: %v", t, err)
+			return
+		}
+		if got, want := SketchContent(rc.Q()), expectedContent(t, md); got != want {
+			fail("C06.round-trip", "decoded into a cleared %s receiver that held the same content\n  got:  %s\n  want: %s", t, got, want)
+			return
+		}
+		mc.Count("decodes", 1)
+	}
 	// composition with merging, against the other slot of the world
 	if len(w.S) < 2 {
 		return
@@ -541,6 +557,11 @@ func grammarShards(tier string) []mc.Shard {
 		bytes []byte
 		bins  []model.WireBin
 		neg   bool
+		// far: indexes near both ends of the int32 range (the delta between them does
+		// not fit in 32 bits). Array-backed targets would have to allocate the whole
+		// span, and the paginated store its page table unless every count is a unit
+		// entry of its buffer: those targets are skipped for such blocks.
+		far, farPaged bool
 	}
 	var all []blk
 	mk := func(neg bool, layout int, first int64, ds []int64, cs []float64) blk {
@@ -583,7 +604,7 @@ func grammarShards(tier string) []mc.Shard {
 				idx += stride
 			}
 		}
-		return blk{b, bins, neg}
+		return blk{bytes: b, bins: bins, neg: neg}
 	}
 	for _, neg := range []bool{false, true} {
 		for layout := 1; layout <= 3; layout++ {
@@ -625,6 +646,23 @@ func grammarShards(tier string) []mc.Shard {
 			}
 		}
 	}
+	// indexes 10 away from both ends of the int32 range: a delta (or stride) of 2^32-20
+	for _, neg := range []bool{false, true} {
+		const lo, span = math.MinInt32 + 10, int64(math.MaxInt32-10) - (math.MinInt32 + 10)
+		for layout := 1; layout <= 3; layout++ {
+			b := mk(neg, layout, lo, []int64{span}, []float64{1, 1})
+			b.far, b.farPaged = true, layout == 3
+			all = append(all, b)
+			if layout != 2 {
+				b = mk(neg, layout, lo, []int64{span}, []float64{0.5, 2})
+				b.far, b.farPaged = true, true
+				all = append(all, b)
+			}
+			b = mk(neg, layout, lo+span, []int64{-span}, []float64{1, 1})
+			b.far, b.farPaged = true, layout == 3
+			all = append(all, b)
+		}
+	}
 	// a reduced set of second blocks
 	var second []blk
 	for i, b := range all {
@@ -656,6 +694,15 @@ func grammarShards(tier string) []mc.Shard {
 			distinct := map[string]struct{}{}
 			try := func(stream []byte, blocks []blk, zeroW float64, withMap bool) bool {
 				for _, t := range codecTargets {
+					skip := false
+					for _, b := range blocks {
+						if (b.far && t.K == 'D') || (b.farPaged && t.K == 'P') {
+							skip = true
+						}
+					}
+					if skip {
+						continue
+					}
 					var sup mapping.IndexMapping
 					if !withMap {
 						sup = m
